@@ -95,6 +95,8 @@ NatOf(m) == NatOfFrom(m, 1)          \* only for small values (native TLC intege
            | [k |-> "float", size] (4: float, 8: double) | [k |-> "ptr", item]
            | [k |-> "struct", tag, fields] | [k |-> "void"]
            | [k |-> "arr", item, len]  (a struct field that is an array; nested for n dimensions)
+           | [k |-> "complex", size] (8: float _Complex, 16: double _Complex) | [k |-> "ldouble"]
+             (C14 only; long double values are kept double-representable: image = the double's)
    Python  [k |-> "int", neg, mag, fl, flovf]   fl = <<image>>: its float value if known
            [k |-> "float", d, f, fd]   IEEE images: as double, narrowed to float, that float
                                        widened again (supplied by the reference compiler)
@@ -107,12 +109,15 @@ NatOf(m) == NatOfFrom(m, 1)          \* only for small values (native TLC intege
            [k |-> "cptr", ct, cell]         pointer or (decayed) array cdata; cell 0 = NULL
            [k |-> "cstruct", ct, vals]      struct cdata, vals = Python values of its fields
            [k |-> "carr", vals]             (results only) the array cdata of a struct's array field
+           [k |-> "pycomplex", re, im]      Python complex; re, im = [d, f, fd] images (results: d only)
+           [k |-> "cldouble", d]            <cdata 'long double'> (its value as a double)
    C       integer, _Bool, char: digit sequence of the type's size
            float/double: [img |-> digits, asd |-> image as double]
            pointer: [ref |-> "null" | "cell" | "tmp" | "bytes" | "tmpv", id, data]
                     (tmp: bytes of a temporary array of scalars; tmpv: the struct values of a
                     temporary array of structs)
-           struct: sequence of field C values;  array field: sequence of item C values *)
+           struct: sequence of field C values;  array field: sequence of item C values
+           complex: [re |-> float C value, im |-> float C value];  long double: like double *)
 
 IntT(s, sg) == [k |-> "int", size |-> s, signed |-> sg]
 BoolT == [k |-> "bool"]
@@ -234,6 +239,13 @@ ConvertItem(t, v) ==
       [] t.k = "char" -> ConvChar(v)
       [] t.k = "float" -> ConvFloat(t, v)
       [] t.k = "struct" -> ConvStruct(t, v)
+      [] t.k = "complex" ->      \* a Python complex, or anything with a float value (imaginary part 0)
+           LET part(x) == IF t.size = 8 THEN [img |-> x.f, asd |-> x.fd] ELSE [img |-> x.d, asd |-> x.d]
+               zero == [img |-> Zeros(t.size \div 2), asd |-> Zeros(8)]
+           IN IF v.k = "pycomplex" THEN Ok([re |-> part(v.re), im |-> part(v.im)])
+              ELSE LET r == ConvFloat(FloatT(t.size \div 2), v) IN
+                   IF r.ok THEN Ok([re |-> r.c, im |-> zero]) ELSE r
+      [] t.k = "ldouble" -> IF v.k = "cldouble" THEN Ok([img |-> v.d, asd |-> v.d]) ELSE ConvFloat(FloatT(8), v)
       [] t.k = "arr" ->          \* array field: list/tuple of items, the rest zero; too many: IndexError
            IF v.k # "list" THEN Err("TypeError")
            ELSE IF Len(v.items) > t.len THEN Err("IndexError")
@@ -278,6 +290,8 @@ ToPy(t, c) ==
                                   ELSE IF c.ref = "cell" THEN c.id ELSE 0 - 1]
       [] t.k = "struct" -> [k |-> "cstruct", ct |-> t,
                             vals |-> TLCEval([i \in 1..Len(t.fields) |-> ToPy(t.fields[i], c[i])])]
+      [] t.k = "complex" -> [k |-> "pycomplex", re |-> [d |-> c.re.asd], im |-> [d |-> c.im.asd]]
+      [] t.k = "ldouble" -> [k |-> "cldouble", d |-> c.asd]
       [] t.k = "arr" -> [k |-> "carr", vals |-> TLCEval([i \in 1..t.len |-> ToPy(t.item, c[i])])]
       [] t.k = "void" -> None
 
@@ -290,6 +304,8 @@ PyEq(a, b) ==
          [] a.k = "bytes" -> a.data = b.data
          [] a.k = "pybool" -> a.b = b.b
          [] a.k = "cptr" -> a.ct = b.ct /\ (a.cell = b.cell \/ a.cell = 0 - 1 \/ b.cell = 0 - 1)
+         [] a.k = "pycomplex" -> a.re.d = b.re.d /\ a.im.d = b.im.d
+         [] a.k = "cldouble" -> a.d = b.d
          [] a.k = "carr" -> /\ Len(a.vals) = Len(b.vals)
                             /\ \A i \in 1..Len(a.vals) : PyEq(a.vals[i], b.vals[i])
          [] a.k = "cstruct" -> /\ a.ct = b.ct /\ Len(a.vals) = Len(b.vals)
@@ -511,12 +527,16 @@ RECURSIVE FlatFields(_, _, _)
 FlatFields(ts, cs, i) == IF i > Len(ts) THEN <<>> ELSE BytesOf(ts[i], cs[i]) \o FlatFields(ts, cs, i + 1)
 \* bytes of a C value of type t (structs: fields in order; padding is not modelled)
 ImgOf(t, c) == CASE t.k = "struct" -> FlatFields(t.fields, c, 1)
+                 [] t.k = "complex" -> c.re.img \o c.im.img
+                 [] t.k = "ldouble" -> c.img
                  [] t.k = "ptr" -> <<c>>        \* one opaque digit-free token: addresses are not modelled
                  [] t.k = "void" -> <<>>
                  [] OTHER -> BytesOf(t, c)
 RECURSIVE SizeT(_), SumSizes(_, _)
 SumSizes(ts, i) == IF i > Len(ts) THEN 0 ELSE SizeT(ts[i]) + SumSizes(ts, i + 1)
 SizeT(t) == CASE t.k = "struct" -> SumSizes(t.fields, 1)
+              [] t.k = "complex" -> t.size
+              [] t.k = "ldouble" -> 8           \* (its image here; the C object has 16 bytes)
               [] t.k = "ptr" -> 1              \* (token) -- pointers are never widened: size = ffi_arg
               [] t.k = "void" -> 0
               [] OTHER -> SizeOf(t)
@@ -584,4 +604,36 @@ TmpArrayStore(t, items, thr, variant) ==
 RECURSIVE IdealItems(_, _, _)
 IdealItems(t, items, i) == IF i > Len(items) THEN <<>>
                            ELSE ImgOf(t, ConvStruct(t, items[i]).c) \o IdealItems(t, items, i + 1)
+
+-----------------------------------------------------------------------------
+(* 8. C14: the argument slots of an extern "Python" function (recompiler._extern_python_decl
+      writes them, general_invoke_callback(0, ...) reads them).  The generated C wrapper has
+      `char a[8 * nargs]`; argument i is stored at a + 8*i -- by value if it is "small", else
+      the slot receives a pointer to it; the decoder applies the same test.
+      Sizes are the real ones in bytes.  byref = "impl": what the code does (long double, struct,
+      union by reference -- a 16-byte double _Complex by value!);  byref = "wide": every
+      argument wider than a slot by reference. *)
+SlotSize(t) == CASE t.k = "complex" -> t.size [] t.k = "ldouble" -> 16 [] t.k = "struct" -> 16
+                 [] t.k = "ptr" -> 8 [] OTHER -> SizeOf(t)
+ByRef(t, byref) == IF byref = "impl" THEN t.k \in {"ldouble", "struct"} ELSE SlotSize(t) > 8
+SlotTok(kind, i, n) == TLCEval([j \in 1..n |-> <<kind, i, j>>])
+RECURSIVE SlotsWritten(_, _, _, _)
+\* the buffer after the wrapper stored arguments i.. in order (a store may run over the next slot)
+SlotsWritten(b, ts, i, byref) ==
+    IF i > Len(ts) THEN b
+    ELSE LET toks == IF ByRef(ts[i], byref) THEN SlotTok("ref", i, 8) ELSE SlotTok("val", i, SlotSize(ts[i]))
+             room == Len(b) - (i - 1) * 8
+             kept == SubSeq(toks, 1, IF Len(toks) <= room THEN Len(toks) ELSE room)
+         IN SlotsWritten(Splice(b, (i - 1) * 8, kept), ts, i + 1, byref)
+SlotBuf(ts) == TLCEval([j \in 1..(IF Len(ts) = 0 THEN 8 ELSE 8 * Len(ts)) |-> <<"free", 0, 0>>])
+\* every store stays inside `char a[]`
+SlotsInBounds(ts, byref) == \A i \in 1..Len(ts) :
+    (i - 1) * 8 + (IF ByRef(ts[i], byref) THEN 8 ELSE SlotSize(ts[i])) <= Len(SlotBuf(ts))
+\* the decoder finds every argument as it was stored
+SlotsExact(ts, byref) ==
+    LET b == SlotsWritten(SlotBuf(ts), ts, 1, byref) IN
+    \A i \in 1..Len(ts) :
+        LET want == IF ByRef(ts[i], byref) THEN SlotTok("ref", i, 8) ELSE SlotTok("val", i, SlotSize(ts[i]))
+            have == SubSeq(b, (i - 1) * 8 + 1, IF (i - 1) * 8 + Len(want) <= Len(b) THEN (i - 1) * 8 + Len(want) ELSE Len(b))
+        IN have = SubSeq(want, 1, Len(have)) /\ Len(have) = Len(want)
 =============================================================================
